@@ -27,7 +27,7 @@ ANCHORS = ['converters:TaggedUnionConverter.try_convert', 'converters:TaggedUnio
            'converters:DictConverter.try_convert', 'converters:SequenceConverter.try_convert',
            'converters:StructConverter.into_data', 'classes:PaneConverter.into_data', 'convert:into_data', 'convert:convert']
 MIN_COUNTERS = {'quick': {'calls_checked': 30000, 'rejected_inputs_checked': 8000, 'tagged_inputs_checked': 500,
-                          'trap_carriers_used': 3000}}
+                          'trap_carriers_used': 3000, 'keyed_inputs_checked': 5000}}
 
 TRAPLOG = []
 ARMED = set()
@@ -177,3 +177,48 @@ def run(ctx):
     from .. import gentypes
     drive.for_each_case(ctx, 'tagged', max(10, ctx.budget // 6), body_tagged,
                         gen=lambda c, r: gentypes.gen_tagged(r, 1, overlap=r.random() < 0.5))
+
+    # mapping-shaped targets x {complete, one key missing, one extra key} x every Mapping carrier, among them
+    # defaultdicts: reading an absent key through `val[k]` INSERTS it, which the key-order fingerprint sees
+    def body_keyed(i, rng, ty, T):
+        ARMED.clear()
+        keep = []
+        base = genval.member(ty, rng)
+        inner_list = ty.k == 'list'
+        m = base[0] if inner_list and base else base
+        if not isinstance(m, dict):
+            return
+        variants = [dict(m)]
+        for k in list(m)[:3]:
+            variants.append({kk: x for kk, x in m.items() if kk != k})
+        variants.append({**m, 'zz_extra': 1})
+        carriers = genval.MAP_CARRIERS + (('defaultdict(int)', lambda d: collections.defaultdict(int, d)),
+                                          ('defaultdict(dict)', lambda d: collections.defaultdict(dict, d)),
+                                          ('Counter', lambda d: collections.Counter(d) if all(type(x) is int for x in d.values()) else dict(d)))
+        for v in variants:
+            for cname, carrier in carriers:
+                cv = carrier(v)
+                keep.append(cv)
+                arg = [cv] if inner_list else cv
+                ctx.count('keyed_inputs_checked')
+                ctx.count(f"carrier_{cname}")
+                api = rng.choice(('from_data', 'from_data', 'convert'))
+                checked(api, i, ty, getattr(env, api), (arg, T), watch=[arg])
+
+    def gen_keyed(c, r):
+        from ..tyast import Ty
+        k = r.choice(('struct', 'dc', 'dict', 'tagged'))
+        if k == 'struct':
+            names = r.sample(gentypes.FIELD_NAMES, r.randint(1, 3))
+            ty = Ty('struct', [gentypes.gen_type(r, 1, lit_ok=False) for _ in names], keys=tuple(names))
+        elif k == 'dc':
+            ty = Ty('dc', spec=gentypes.gen_class(r, 1))
+        elif k == 'dict':
+            ty = Ty('dict', [Ty('str'), gentypes.gen_type(r, 1, lit_ok=False)], res='dict')
+        else:
+            ty = gentypes.gen_tagged(r, 1)
+        if k != 'struct' and r.random() < 0.3:
+            ty = Ty('list', [ty])
+        return ty
+
+    drive.for_each_case(ctx, 'keyed', max(10, ctx.budget // 6), body_keyed, gen=gen_keyed)
